@@ -69,6 +69,12 @@ func (c *Conversation) generateSMP3(secret *big.Int, s1 smp1State, m2 smp2Messag
 }
 
 func (c *Conversation) verifySMP3(s2 *smp2State, msg smp3Message) error {
+	if mod(s2.pb, p).Sign() == 0 || mod(s2.qb, p).Sign() == 0 {
+		// our own Pb / Qb are divided by below; they are 0 when the initiator's SMP1 carried degenerate
+		// elements (OTRv2 performs no group checks)
+		return newOtrError("Pb or Qb has no inverse")
+	}
+
 	if !c.version.isGroupElement(msg.pa) {
 		return newOtrError("Pa is an invalid group element")
 	}
